@@ -82,6 +82,7 @@ func c02Run(r *core.Run) {
 	steps := 1 + t.Int(3, "c02.steps")
 	sizeSel := t.Int(5, "c02.storesize") // 0 => 1 member (plainest); k => k-1 members
 	s := NewStd(r)
+	s.DrawLive()
 	s.DrawClockKnobs()
 	attackerKey := 6
 	hour := time.Hour
